@@ -216,8 +216,8 @@ def import_mapping_and_flush(ctx, chk, R4):
 
 
 
-def run(ctx):
-    chk = Check('C14', ctx)
+def run(ctx, host=None):
+    chk = host.sub('C14') if host is not None else Check('C14', ctx)
     prog, K, E = ctx.prog, ctx.kinds, ctx.effects
     R1 = chk.rule('C14.R1', 'iterable parameters are consumed at most once before being materialised', 2)
     R2 = chk.rule('C14.R2', 'import: compress / do_fsync / no_holes flags forwarded unchanged, do_commit=False at every add call, one final commit', 5)
@@ -389,6 +389,11 @@ def run(ctx):
                 'with different algorithms keys would be compared that can never match (or everything is re-hashed needlessly)', where=f'{fn.module.relpath}:{(htest[0].lineno if htest else fn.lineno)}')
 
     import_mapping_and_flush(ctx, chk, R4)
+
+    # rules of other properties that are necessary conditions of this one too: imported bytes are identical only if the direct-to-pack write path round-trips (C01)
+    if host is None:
+        from ..report import host_modules
+        host_modules(chk, ctx, ['C01'])
 
     return chk.finish(
         explanation=('Static checks of import_objects: a linear typestate for every Iterable-annotated parameter of the package (at most one consumption per path before '
